@@ -49,7 +49,7 @@ RecentBad(e) ==
       RECURSIVE Top(_, _)
       Top(S, n) == IF n = 0 \/ S = {} THEN <<>>
                    ELSE LET r == CHOOSE x \in S : \A q \in S : rs[q].ts <= rs[x].ts IN <<r>> \o Top(S \ {r}, n - 1)
-      RecentN(d, n) == LET top == SelectSeq(Top(RunsOfN(d), n), HasN) IN [i \in DOMAIN top |-> LastN(top[i])]
+      RecentN(d, n) == LET top == Top({r \in RunsOfN(d) : HasN(r)}, n) IN [i \in DOMAIN top |-> LastN(top[i])]
   IN UNION { (IF e.ans[d].recent1 # RecentN(d, 1) \/ e.ans[d].recent2 # RecentN(d, 2) \/ e.ans[d].recent9 # RecentN(d, 9)
                 THEN {"C06_RecentWrong"} ELSE {})
            : d \in DOMAIN e.ans }
